@@ -1,4 +1,5 @@
 import Ntrip.Model.Bits
+import Ntrip.Model.SegmentT
 /-! Operations of the line protocol.  Every branch that rejects input answers `bad-op`
     (never a default value). -/
 namespace Driver
@@ -37,7 +38,66 @@ def showOptInt : Option Int → String
   | some n => s!"ok {n}"
   | none => "panic"
 
+def showOptI : Option Int → String
+  | some n => toString n
+  | none => "-"
+
+/-- The error class visible in `Message.ErrorMessage` (a CRC failure sets none). -/
+def shownErr : Err → Err
+  | .crc => .none
+  | e => e
+
+def showMsgT (m : MsgT) : String :=
+  s!"{m.typ}:{toHex m.raw}:{(shownErr m.err).toString}:{m.ts}:{showOptI m.sentAt}:{showOptI m.sow}"
+
+def showGMT : GMT → String
+  | .empty => "empty"
+  | .msg m => s!"msg err={m.err.toString} {showMsgT m}"
+
+/-- A sequence of `GetMessage` calls on one handler. -/
+def getHist (st : TState) : List Bytes → List String
+  | [] => []
+  | b :: rest =>
+    let (r, st') := getMessage crc24q st b
+    showGMT r :: getHist st' rest
+
+def parseHexes : List String → Option (List Bytes)
+  | [] => some []
+  | h :: t => match parseHex h, parseHexes t with
+    | some b, some bs => some (b :: bs)
+    | _, _ => none
+
 def handle : List String → String
+  | ["crc", h] =>
+    match parseHex h with
+    | some b => s!"ok {crc24q b}"
+    | none => "bad-op"
+  | ["getmsg", t, h] =>
+    match t.toInt?, parseHex h with
+    | some T, some b => showGMT (getMessage crc24q (newState T) b).1
+    | _, _ => "bad-op"
+  | "gethist" :: t :: hs =>
+    match t.toInt?, parseHexes hs with
+    | some T, some bs => " | ".intercalate (getHist (newState T) bs)
+    | _, _ => "bad-op"
+  | ["stream", t, h] =>
+    match t.toInt?, parseHex h with
+    | some T, some b =>
+      let ms := segmentT crc24q (newState T) (In.ofBytes b)
+      s!"msgs {ms.length}" ++ String.join (ms.map (fun m => " " ++ showMsgT m))
+    | _, _ => "bad-op"
+  | ["streamcap", t, h, _, _] =>
+    match t.toInt?, parseHex h with
+    | some T, some b =>
+      let ms := segmentT crc24q (newState T) (In.ofBytes b)
+      s!"msgs {ms.length}" ++ String.join (ms.map (fun m => " " ++ showMsgT m))
+    | _, _ => "bad-op"
+  | "streamseg" :: t :: toks =>
+    match t.toInt?, parseHexes (toks.map (fun k => (k.drop 2).toString)) with
+    | some T, some bs =>
+      let ms := segmentT crc24q (newState T) (In.ofBytes bs.flatten)
+      s!"msgs {ms.length}" ++ String.join (ms.map (fun m => " " ++ showMsgT m))
+    | _, _ => "bad-op"
   | ["bitsu", h, p, l] =>
     match parseHex h, p.toNat?, l.toNat? with
     | some b, some pos, some len => showOptNat (getBitsU? b pos len)
